@@ -223,8 +223,8 @@ func main() {
 		r := &hres{cfg: h, tc: tc, ex: ex, wall: time.Since(th).Seconds()}
 		results = append(results, r)
 		st := &ex.Stats
-		fmt.Printf("harness %-28s paths=%d %v pruned=%d+%dq decisions=%d queries=%d (sat %d unsat %d unknown %d) trivial-asserts=%d solver-asserts=%d solve=%.1fs wall=%.1fs\n",
-			h.Name, st.Paths, st.ByOutcome, st.Pruned, st.QuickPruned, st.Decisions, st.Queries, st.QuerySat, st.QueryUnsat, st.QueryUnknown, st.Trivial, st.AssertsSym, st.SolveTime.Seconds(), r.wall)
+		fmt.Printf("harness %-28s paths=%d %v pruned=%d+%dq quickfeasible=%d decisions=%d queries=%d (sat %d unsat %d unknown %d) trivial-asserts=%d solver-asserts=%d solve=%.1fs wall=%.1fs\n",
+			h.Name, st.Paths, st.ByOutcome, st.Pruned, st.QuickPruned, st.QuickFeasible, st.Decisions, st.Queries, st.QuerySat, st.QueryUnsat, st.QueryUnknown, st.Trivial, st.AssertsSym, st.SolveTime.Seconds(), r.wall)
 		// machinery health: these make the check BROKEN (exit 2), never "held"
 		if n := st.ByOutcome["unsupported"]; n > 0 {
 			broken = append(broken, fmt.Sprintf("%s: %d unsupported paths, e.g. %s", h.Name, n, first(st.Unsupported)))
@@ -392,7 +392,7 @@ func main() {
 		hs = append(hs, map[string]any{
 			"name": r.cfg.Name, "func": r.cfg.Func, "claim": r.cfg.Claim, "bounds": r.tc.Bounds,
 			"limits":  map[string]any{"max_paths": r.ex.Cfg.MaxPaths, "max_instr_per_path": r.ex.Cfg.MaxInstr, "max_decisions_per_path": r.ex.Cfg.MaxDecisions, "solver_timeout_ms": r.ex.Cfg.TimeoutMs},
-			"paths":   st.Paths, "paths_by_outcome": st.ByOutcome, "infeasible_alternatives_pruned": st.Pruned, "alternatives_refuted_by_partial_evaluation": st.QuickPruned, "decisions": st.Decisions, "instructions": st.Instrs,
+			"paths":   st.Paths, "paths_by_outcome": st.ByOutcome, "infeasible_alternatives_pruned": st.Pruned, "alternatives_refuted_by_partial_evaluation": st.QuickPruned, "alternatives_shown_feasible_without_query": st.QuickFeasible, "decisions": st.Decisions, "instructions": st.Instrs,
 			"queries": st.Queries, "assertions_closed_by_simplifier": st.Trivial, "assertions_decided_by_solver": st.AssertsSym,
 			"assert_labels_executed": st.AssertLabels, "reach_witnesses": st.Reached, "unwinding_overruns": st.Unwind,
 			"longest_decision_vector": st.MaxTrace, "wall_s": r.wall, "outside_claim": r.cfg.Outside,
